@@ -207,6 +207,11 @@ class Model:
                 return int(v > 0 and v & (v - 1) == 0)
             if n in ("from", "into", "as_u32", "as_i32", "as_usize") and len(e[2]) == 1:
                 return self.ev(e[2][0], args)
+            if n in ("checked_sub", "checked_add", "checked_mul") and len(e[2]) == 2:
+                lo, hi = INT_RANGE[self.ty]
+                a, b = self.ev(e[2][0], args), self.ev(e[2][1], args)
+                v = {"checked_sub": a - b, "checked_add": a + b, "checked_mul": a * b}[n]
+                return ("enum", 1, "Some", (v,)) if lo <= v <= hi else ("enum", 0, "None", ())
             if n in ("is_some", "is_none", "is_ok", "is_err") and len(e[2]) == 1:
                 v = self.ev(e[2][0], args)
                 if isinstance(v, tuple) and v and v[0] == "enum":
